@@ -5,6 +5,8 @@ type nat =
 | O
 | S of nat
 
+val option_map : ('a1 -> 'a2) -> 'a1 option -> 'a2 option
+
 val fst : ('a1 * 'a2) -> 'a1
 
 val snd : ('a1 * 'a2) -> 'a2
@@ -20,6 +22,8 @@ type comparison =
 
 val add : nat -> nat -> nat
 
+val sub : nat -> nat -> nat
+
 type positive =
 | XI of positive
 | XO of positive
@@ -29,8 +33,15 @@ type n =
 | N0
 | Npos of positive
 
+type z =
+| Z0
+| Zpos of positive
+| Zneg of positive
+
 module Nat :
  sig
+  val pred : nat -> nat
+
   val leb : nat -> nat -> bool
 
   val ltb : nat -> nat -> bool
@@ -48,6 +59,10 @@ module Coq_Pos :
  sig
   val succ : positive -> positive
 
+  val add : positive -> positive -> positive
+
+  val add_carry : positive -> positive -> positive
+
   val pred_double : positive -> positive
 
   type mask = Pos.mask =
@@ -64,6 +79,8 @@ module Coq_Pos :
   val sub_mask : positive -> positive -> mask
 
   val sub_mask_carry : positive -> positive -> mask
+
+  val mul : positive -> positive -> positive
 
   val size : positive -> positive
 
@@ -86,7 +103,11 @@ module N :
 
   val double : n -> n
 
+  val add : n -> n -> n
+
   val sub : n -> n -> n
+
+  val mul : n -> n -> n
 
   val compare : n -> n -> comparison
 
@@ -121,9 +142,28 @@ val ascii_of_N : n -> char
 
 val ascii_of_nat : nat -> char
 
+val n_of_digits : bool list -> n
+
+val n_of_ascii : char -> n
+
+val nat_of_ascii : char -> nat
+
+val last : 'a1 list -> 'a1 -> 'a1
+
 val map : ('a1 -> 'a2) -> 'a1 list -> 'a2 list
 
 val forallb : ('a1 -> bool) -> 'a1 list -> bool
+
+val find : ('a1 -> bool) -> 'a1 list -> 'a1 option
+
+module Z :
+ sig
+  val opp : z -> z
+
+  val to_nat : z -> nat
+
+  val of_N : n -> z
+ end
 
 val eqb0 : char list -> char list -> bool
 
@@ -160,6 +200,14 @@ val dec_N : n -> char list
 
 val dec_nat : nat -> char list
 
+val is_digit : char -> bool
+
+val parse_N_acc : char list -> n -> n option
+
+val parse_N : char list -> n option
+
+val parse_Z : char list -> z option
+
 type sexp =
 | SAtom of char list
 | SList of sexp list
@@ -181,6 +229,12 @@ val d_str : sexp -> char list option
 val d_list : (sexp -> 'a1 option) -> sexp list -> 'a1 list option
 
 val d_strs : sexp -> char list list option
+
+val d_Z : sexp -> z option
+
+val d_nat : sexp -> nat option
+
+val d_bool : sexp -> bool option
 
 val bad_input : sexp
 
@@ -258,5 +312,113 @@ val builtin_names : (char list * char list) list
 val documented : char list list
 
 val math_env : menv
+
+val errFileNotFound : err
+
+val errDocker : err
+
+val nl : char list
+
+val result_file_name : char list
+
+type file = { f_parent : char list; f_name : char list; f_exists : bool }
+
+type backend =
+| Atlas
+| CmsAod
+| CmsMiniaod
+
+type md =
+| MdDocker of char list option
+| MdOther
+
+type dataset_args = { a_files : file list; a_image : char list;
+                      a_tag : char list; a_outdir : char list option;
+                      a_backend : backend }
+
+type env = { e_tmpdir : char list; e_cwd : char list; e_outdir_exists : bool }
+
+type query = { q_mds : md list; q_translate : err option }
+
+type chunk =
+| ChBytes of bool
+| ChOther
+
+type container = { k_at_call : bool; k_chunks : chunk list;
+                   k_fail_after : nat option; k_result : bool }
+
+type vsrc =
+| SrcPkg
+| SrcDir of char list
+| SrcName of char list
+
+type volume = { v_src : vsrc; v_dst : char list; v_mode : char list option }
+
+type call = { c_image : char list; c_command : char list list;
+              c_volumes : volume list; c_remove : bool; c_stream : bool }
+
+type effects = { x_calls : call list; x_filelist : char list;
+                 x_outcome : char list list result }
+
+val cache_volumes : backend -> (char list * char list) list
+
+val runner_name : backend -> char list
+
+val docker_volume_name : char list -> char list
+
+val is_abs : char list -> bool
+
+val path_join : char list -> char list -> char list
+
+val absolute : char list -> char list -> char list
+
+type dataset = { d_files : file list; d_docker_image : char list;
+                 d_output_directory : char list; d_backend : backend }
+
+val construct : dataset_args -> env -> dataset result
+
+val found_docker : char list -> md list -> char list list
+
+val pick_image : char list -> md list -> char list
+
+val filelist_line : file -> char list
+
+val filelist_loop :
+  file list -> char list option -> char list -> char list * char list option
+  result
+
+val stream_loop : chunk list -> nat option -> unit result
+
+val run_container : container -> unit result
+
+val extract_result : container -> env -> char list -> char list result
+
+val volumes_to_mount : backend -> char list -> volume list
+
+val execute : dataset -> env -> query -> container -> effects
+
+val run : dataset_args -> env -> query -> container -> effects
+
+val d_file : sexp -> file option
+
+val d_backend_ : sexp -> backend option
+
+val d_opt_str : sexp -> char list option option
+
+val d_md : sexp -> md option
+
+val d_chunk : sexp -> chunk option
+
+val d_opt_nat : sexp -> nat option option
+
+val s_vsrc : vsrc -> sexp
+
+val s_volume : volume -> sexp
+
+val s_call : call -> sexp
+
+val s_effects : effects -> sexp
+
+val run_execute : sexp -> sexp
 
 val dispatch : char list -> sexp -> sexp
